@@ -85,6 +85,33 @@ Theorem C06_delivery_log : forall cap ops k temp,
 Proof. exact delivery_log. Qed.
 Print Assumptions C06_delivery_log.
 
+(* The delivery log as a clause on ONE observed step (`delivery_ok`, Broker/BackendLog.v): every queue of every
+   session existing after the step = what it held before, minus what this step dequeued from its front, plus what the
+   specification says this step enqueues — decided at Publish time from the subscriptions of that moment, whatever
+   Subscribe/Unsubscribe did before or does later; a Dequeue that returns a message returns the head of the chosen
+   queue.  Holds at every step of every history (Publish steps with a '#' level in the topic name excepted). *)
+Theorem C06_delivery_step : forall cap ops,
+  Forall (fun x => let '(st, o, r, st') := x in delivery_ok st o r st' = true) (trace (init cap) ops).
+Proof. exact delivery_along. Qed.
+Print Assumptions C06_delivery_step.
+
+(* in particular: a queued message survives an Unsubscribe, and Dequeue hands out the head of the queue whatever the
+   subscriptions are at that moment (only its QoS is capped) *)
+Theorem C06_unsubscribe_keeps_queues : forall st c fs k s,
+  get_session st k = Some s ->
+  exists s', get_session (snd (unsubscribe st c fs)) k = Some s' /\ s_tq s' = s_tq s /\ s_sq s' = s_sq s.
+Proof. exact unsubscribe_keeps_queues. Qed.
+Print Assumptions C06_unsubscribe_keeps_queues.
+
+Theorem C06_dequeue_returns_head : forall st c temp k s m rest,
+  session_of st c = Some (k, s) -> queue temp s = m :: rest ->
+  exists m', fst (dequeue st c temp) = RMsg m' /\
+             m_topic m' = m_topic m /\ m_payload m' = m_payload m /\ m_retain m' = m_retain m /\ m_qos m' <= m_qos m /\
+             exists s', get_session (snd (dequeue st c temp)) k = Some s' /\ queue temp s' = rest /\
+                        queue (negb temp) s' = queue (negb temp) s /\ s_subs s' = s_subs s.
+Proof. exact dequeue_returns_head. Qed.
+Print Assumptions C06_dequeue_returns_head.
+
 (* lookupSubscription (Tree.MatchFirst as coded: the last report of the walk wins) finds a
    subscription iff the session holds a matching filter, and what it finds matches *)
 Theorem C06_match_first : forall subs t,
